@@ -196,6 +196,12 @@ type sideMon struct {
 	stepAckPkts  int       // packets carrying a SACK delivered to this side in the current step
 	stepRTTCands []float64 // RTT samples (ms) of newly acknowledged chunks that were sent exactly once
 	stepHB       bool      // a HEARTBEAT-ACK was delivered in the current step
+	// acknowledgement packets are processed over several scheduling steps and may queue up: the samples
+	// of the last few delivered SACKs stay candidates until an SRTT update uses them
+	rttCands  []rttCand
+	ackPktSeq int
+	hbAckSeq  int
+	hbAckSeen bool
 	needAckNow   bool      // the pending acknowledgement must be immediate (gap / duplicate)
 	needAckNowAt time.Duration
 	needAckWhy   string
@@ -206,6 +212,12 @@ type sideMon struct {
 	snapFR   bool
 	lastFwdCum uint32
 	haveFwdCum bool
+}
+
+type rttCand struct {
+	sample float64 // ms
+	pkt    int     // sequence number of the delivered SACK packet
+	tsn    uint32
 }
 
 type wireMon struct {
@@ -561,9 +573,12 @@ func (m *wireMon) onDeliver(to int, p *wirePacket, data []byte) {
 	for _, c := range q.chunks {
 		if c.typ == wtHBACK {
 			sm.stepHB = true
+			sm.hbAckSeq = sm.ackPktSeq
+			sm.hbAckSeen = true
 		}
 		if c.typ == wtSACK {
 			sm.stepAckPkts++
+			sm.ackPktSeq++
 			// RTT candidates: chunks newly acknowledged by this SACK that were put on the wire exactly once
 			if !(sm.ack.valid && wSNA32LT(c.cumTSN, sm.ack.cum)) {
 				nowMs := float64(m.w.now()) / float64(time.Millisecond)
@@ -581,7 +596,9 @@ func (m *wireMon) onDeliver(to int, p *wirePacket, data []byte) {
 						}
 					}
 					if hit {
-						sm.stepRTTCands = append(sm.stepRTTCands, nowMs-float64(ti.times[0])/float64(time.Millisecond))
+						r := nowMs - float64(ti.times[0])/float64(time.Millisecond)
+						sm.stepRTTCands = append(sm.stepRTTCands, r)
+						sm.rttCands = append(sm.rttCands, rttCand{sample: r, pkt: sm.ackPktSeq, tsn: ti.tsn})
 					}
 				}
 			}
